@@ -127,6 +127,23 @@ theorem c01_self_resolves (p : SessParams) (r : RouteReq) (hw : WFReq p r) (hsel
   · simp [ha, hso.1 ha]
   · simp [ha, hso.2 ha]
 
+/-- **next-hop self is per session.** The same request (one route written once, announced to several
+    neighbours) sent on two sessions reaches each peer with THAT session's local address — whatever the other
+    session's address, AS numbers or capabilities are. (Corollary of `c01_roundtrip_partial` and `c01_self`: the
+    model is a function of (session, request). That the CODE is one too — no state carried from one neighbour to
+    the next through the shared Route / attribute objects — is what the `shared-route` stream of the check tests,
+    through the real `Configuration.announce_route` over several neighbours, in any order and repeatedly.) -/
+theorem c01_self_per_session (p1 p2 : SessParams) (r : RouteReq) (bs1 bs2 : Bytes)
+    (hs1 : WFSess p1) (hs2 : WFSess p2) (hw1 : WFReq p1 r) (hw2 : WFReq p2 r) (hself : r.nexthop = .self)
+    (hn1 : NextHopOk p1 r) (hn2 : NextHopOk p2 r)
+    (h1 : encodeExa p1 r = .sent bs1) (h2 : encodeExa p2 r = .sent bs2) :
+    ∃ u1 u2, decodeUpdate (paramsOf p1) bs1 = .ok u1 ∧ decodeUpdate (paramsOf p2) bs2 = .ok u2 ∧
+      (report (paramsOf p1) u1).announce = [(r.afi, r.safi, p1.localAddr, wantNlri p1 r)] ∧
+      (report (paramsOf p2) u2).announce = [(r.afi, r.safi, p2.localAddr, wantNlri p2 r)] := by
+  obtain ⟨u1, hd1, hm1⟩ := c01_roundtrip_partial p1 r bs1 hs1 hw1 hn1 h1
+  obtain ⟨u2, hd2, hm2⟩ := c01_roundtrip_partial p2 r bs2 hs2 hw2 hn2 h2
+  exact ⟨u1, u2, hd1, hd2, c01_self p1 r u1 hself hm1, c01_self p2 r u2 hself hm2⟩
+
 /-- What AS_TRANS substitution is: every AS number above 65535 becomes 23456, the others stay. -/
 theorem c01_trans_def (a : Nat) : transAsn a = if a > 65535 then 23456 else a := by
   simp [transAsn, isBig, asnMax2, exaAsTrans]
